@@ -5,7 +5,7 @@
    CK 1 = the implementation traps on integer overflow (profile Dev), 0 = Release.
    zd = lookup in the table ZT (what the zstd crate returned for that frame); a frame that is not in the table is
    a decoding error (None).  Prints one token per file (letters as in the harness):
-     A B C D F G H I J K L M N U  error codes 1 2 3 4 5 6 7 8 10 11 12 13 14 15,  P panic,
+     A B C D F G H I J K L M N U V  error codes 1 2 3 4 5 6 7 8 10 11 12 13 14 15 16,  P panic,
      O:<k>:<min_match_len>:<name hex>,..  a handle
    and ` a=<largest AFile> z=<largest AZstd> n=<largest AName> t=<largest ATable>` (removed by canon). *)
 open Model
@@ -29,7 +29,7 @@ let max_off_of = function
 
 let letter code = match int_of_n code with
   | 1 -> "A" | 2 -> "B" | 3 -> "C" | 4 -> "D" | 5 -> "F" | 6 -> "G" | 7 -> "H" | 8 -> "I"
-  | 10 -> "J" | 11 -> "K" | 12 -> "L" | 13 -> "M" | 14 -> "N" | 15 -> "U" | c -> Printf.sprintf "?%d" c
+  | 10 -> "J" | 11 -> "K" | 12 -> "L" | 13 -> "M" | 14 -> "N" | 15 -> "U" | 16 -> "V" | c -> Printf.sprintf "?%d" c
 
 let ma = ref 0 and mz = ref 0 and mn = ref 0 and mt = ref 0
 let note (al : alloc list) =
